@@ -183,10 +183,17 @@ var (
 // VerifSetChaos switches schedule perturbation on or off.
 func VerifSetChaos(b bool) { verifChaos.Store(b) }
 
-func verifPause(string) {
+func verifPause(at string) {
 	if !verifChaos.Load() {
 		return
 	}
 	n := verifChaosCtr.Add(0x9E3779B97F4A7C15)
+	if at == "snapshot-incref" {
+		// every pin of a snapshot passes here: short pauses on a third of the calls keep the run going
+		if (n>>33)%3 == 0 {
+			time.Sleep(time.Duration((n>>40)%400) * time.Microsecond)
+		}
+		return
+	}
 	time.Sleep(time.Duration((n>>40)%2000) * time.Microsecond)
 }
